@@ -402,6 +402,13 @@ func (c19) RunCase(c *core.Ctx) {
 			return
 		}
 	}
+	if c.Case%100 == 36 {
+		c.Eval(8)
+		if outs, changed := dValidateNilEmbedded(4); changed {
+			c.Violation("validated-value-modified|without-default-catch-or-transform", map[string]any{"schema": "{Rev: Int(), By: String(), title: String()} (no Default, Catch or PostTransform) validating struct{ *DStamp(nil); Title }", "observed": "the nil embedded pointer of the validated value was replaced by a pointer to a zero struct", "outcomes": outs})
+			return
+		}
+	}
 	if c.Case%100 == 34 {
 		c.Eval(3)
 		if problem := dStructInputs(); problem != "" {
